@@ -223,6 +223,42 @@ def layer_hyd(s):
     return out
 
 
+def layer_bounds(s):
+    """Depths of the layer boundaries (m) of a soil spec."""
+    if s["type"] == "custom":
+        out, z = [], 0.0
+        for L in s["layers"][:-1]:
+            z = round(z + L["thickness"], 2)
+            out.append(z)
+        return out
+    return {"Paddy": [0.5], "ac_TunisLocal": [0.3]}.get(s["type"], [])
+
+
+def iwc_depth_spec(rng, s, kind=None):
+    """Initial water content given at depth points (>= 1 cm away from layer boundaries)."""
+    bounds = layer_bounds(s)
+    npts = int(rng.integers(1, 5))
+    pts = set()
+    while len(pts) < npts:
+        z = round(float(rng.uniform(0.02, 2.2)), 2)
+        if all(abs(z - b) >= 0.015 for b in bounds):
+            pts.add(z)
+    depths = sorted(pts)
+    kind = kind or pick(rng, ["Prop", "Pct", "Num"])
+    if kind == "Prop":
+        vals = [pick(rng, ["FC", "WP", "SAT"]) for _ in depths]
+    elif kind == "Pct":
+        vals = [float(pick(rng, [0, 10, 30, 50, 80, 100])) for _ in depths]
+    else:
+        hyd = [h for h in layer_hyd(s) if h is not None]
+        if len(hyd) != soil_layers(s):
+            kind, vals = "Pct", [float(pick(rng, [0, 30, 60, 100])) for _ in depths]
+        else:
+            lo, hi = max(h[0] for h in hyd), min(h[2] for h in hyd)
+            vals = [round(lo + float(rng.random()) * (hi - lo), 3) for _ in depths]
+    return {"wc_type": kind, "method": "Depth", "depth_layer": depths, "value": vals}
+
+
 def iwc_spec(rng, s, kinds=("FC", "WP", "SAT", "Pct", "Num"), wet=False, dry=False):
     nl = soil_layers(s)
     layers = list(range(1, nl + 1))
